@@ -82,6 +82,9 @@ import (
 type mock struct {
 	id string
 	g  *group.Group
+	e  *eng
+	// stream ids of WHIP sessions this member has been told are closed
+	closed map[string]bool
 }
 
 func (m *mock) Group() *group.Group                  { return m.g }
@@ -94,7 +97,30 @@ func (m *mock) Data() map[string]interface{}         { return nil }
 func (m *mock) Joined(g, kind string) error          { return nil }
 func (m *mock) Kick(string, *string, string) error   { return nil }
 func (m *mock) RequestConns(group.Client, *group.Group, string) error { return nil }
-func (m *mock) PushConn(*group.Group, string, conn.Up, []conn.UpTrack, string) error {
+// A member that, the moment it is told a WHIP stream is gone, asks the publisher for its streams again (as a
+// client whose request changes at that moment would): the closed stream must not be pushed to it any more.
+func (m *mock) PushConn(g *group.Group, id string, up conn.Up, tracks []conn.UpTrack, replace string) error {
+	if m.e == nil {
+		return nil
+	}
+	if up == nil {
+		if m.closed == nil {
+			m.closed = map[string]bool{}
+		}
+		first := !m.closed[id]
+		m.closed[id] = true
+		if first {
+			for _, s := range m.e.sessions {
+				if s.c.Id() == id {
+					s.c.RequestConns(m, g, "")
+				}
+			}
+		}
+		return nil
+	}
+	if m.closed[id] && m.e.ghost == "" {
+		m.e.ghost = esc(m.id) + ":" + esc(id)
+	}
 	return nil
 }
 func (m *mock) PushClient(g, kind, id, username string, perms []string, data map[string]interface{}) error {
@@ -118,6 +144,7 @@ type eng struct {
 	mockOrd  []string
 	etagNo   map[string]int
 	etags    []string
+	ghost    string // member:stream pushed to a member after that member had been told the stream was closed
 }
 
 var (
@@ -264,6 +291,7 @@ func (e *eng) Reset() {
 	e.sessions = nil
 	e.byPtr = map[*rtpconn.WhipClient]*sess{}
 	e.mocks = map[string]*mock{}
+	e.ghost = ""
 	e.mockOrd = nil
 	e.etagNo = map[string]int{}
 	e.etags = nil
@@ -724,6 +752,15 @@ func (e *eng) session(name string) *sess {
 }
 
 func (e *eng) Exec(op []string) string {
+	res := e.exec0(op)
+	if e.ghost != "" && e.ghost != "reported" {
+		res += " ghost=" + e.ghost
+		e.ghost = "reported"
+	}
+	return res
+}
+
+func (e *eng) exec0(op []string) string {
 	switch op[0] {
 	case "bearer":
 		return esc(webserver.VerifWhipParseBearerToken(unesc(op[1])))
@@ -792,7 +829,7 @@ func (e *eng) Exec(op []string) string {
 			}
 			id = s.c.Id()
 		}
-		m := &mock{id: id}
+		m := &mock{id: id, e: e}
 		g, err := group.AddClient(unesc(op[2]), m, group.ClientCredentials{System: true})
 		if err != nil {
 			res = "fail"
